@@ -306,3 +306,72 @@ def register(gen, T):
         out.append(f"def floatPartsCalledWithParts : Bool := {'true' if callarg else 'false'}\n")
         out.append(T.footer("LexTables"))
         return "".join(out)
+
+    @gen("LitFormatTables")
+    def lit_format_tables():
+        """`format_literal` of formatter.rs (arms in order: pattern, guard, action), the four `write_infinity_*`
+        helpers, and the `generate_literal` arms of the HLSL and the MSL generator (ir::Constant -> ast::Literal)."""
+        fm = T.src("formatter/src/formatter.rs")
+        out = [T.header("LitFormatTables", ["formatter/src/formatter.rs", "hlsl/src/ast_generate.rs",
+                                            "msl/src/generator.rs", "typer/src/typer/expressions.rs"])]
+        body = fn_body(fm, "format_literal")
+        scrut, arms_text, _ = first_match(body, r'^literal$')
+        arms = []
+        for pats, guard, result in match_arms(arms_text):
+            if len(pats) != 1:
+                raise ExtractError(f"format_literal: or-pattern {pats!r}")
+            r = result
+            if r.startswith("{") and r.endswith("}"):
+                r = normws(r[1:-1])
+            r = r.rstrip(";").strip()
+            arms.append((pats[0], normws(guard) if guard else "", r))
+        out.append("/-- the arms of `format_literal` in order: (pattern, guard, action) -/\n")
+        out.append("def formatLiteralArms : List (String × String × String) := " +
+                   T.lean_list("(%s, %s, %s)" % (T.lean_str(a), T.lean_str(b), T.lean_str(c)) for a, b, c in arms) + "\n\n")
+        infs = []
+        for name in ["write_infinity_untyped", "write_infinity_f16", "write_infinity_f32", "write_infinity_f64"]:
+            b = normws(fn_body(fm, name))
+            m = re.fullmatch(r'output\.push_str\(if context\.target == Target::Msl \{ (.*?) \} else \{ "(.*?)" \}\);?', b)
+            if not m:
+                raise ExtractError(f"{name}: unexpected body {b!r}")
+            infs.append((name, m.group(1), m.group(2)))
+        out.append("/-- `write_infinity_*`: (function, the Metal branch, the HLSL text) -/\n")
+        out.append("def writeInfinity : List (String × String × String) := " +
+                   T.lean_list("(%s, %s, %s)" % (T.lean_str(a), T.lean_str(b), T.lean_str(c)) for a, b, c in infs) + "\n\n")
+
+        def gen_lit(rel, label):
+            src = T.src(rel)
+            b = fn_body(src, "generate_literal")
+            scrut, arms_text, _ = first_match(b, r'^\*literal$')
+            rows = []
+            for pats, guard, result in match_arms(arms_text):
+                if len(pats) != 1:
+                    raise ExtractError(f"{label} generate_literal: or-pattern {pats!r}")
+                if pats[0].startswith("ir::Constant::Enum"):
+                    rows.append((pats[0], "", "enum"))
+                    continue
+                r = result
+                if r.startswith("{"):
+                    r = normws(r[1:-1]).rstrip(";").strip()
+                rows.append((pats[0], normws(guard) if guard else "", r))
+            return rows
+        for rel, label, nm in [("hlsl/src/ast_generate.rs", "hlsl", "generateLiteralHlsl"),
+                               ("msl/src/generator.rs", "msl", "generateLiteralMsl")]:
+            rows = gen_lit(rel, label)
+            out.append(f"/-- the arms of `generate_literal` of the {label} generator: (pattern, guard, result) -/\n")
+            out.append(f"def {nm} : List (String × String × String) := " +
+                       T.lean_list("(%s, %s, %s)" % (T.lean_str(a), T.lean_str(b), T.lean_str(c)) for a, b, c in rows) + "\n\n")
+        ty = T.src("typer/src/typer/expressions.rs")
+        b = fn_body(ty, "parse_literal")
+        scrut, arms_text, _ = first_match(b, r'^ast$')
+        rows = []
+        for pats, guard, result in match_arms(arms_text):
+            r = result
+            if r.startswith("{"):
+                r = normws(r[1:-1]).rstrip(";").strip()
+            rows.append((" | ".join(pats), normws(guard) if guard else "", r))
+        out.append("/-- the arms of the typer's `parse_literal`: (pattern, guard, result) -/\n")
+        out.append("def parseLiteralArms : List (String × String × String) := " +
+                   T.lean_list("(%s, %s, %s)" % (T.lean_str(a), T.lean_str(b), T.lean_str(c)) for a, b, c in rows) + "\n")
+        out.append(T.footer("LitFormatTables"))
+        return "".join(out)
